@@ -202,6 +202,11 @@ func (m *monitor) applyMuts(ctx sdk.Context, s *spec) []string {
 			k.SetParams(ctx, pr)
 		case "receive-disabled":
 			w.tpB.IBCTransferKeeper.SetParams(ctx, transfertypes.NewParams(true, false))
+		case "evm-calls-disabled":
+			// governance switched contract calls off: every call the conversion makes into the EVM fails
+			ep := w.tpB.EvmKeeper.GetParams(ctx)
+			ep.EnableCall = false
+			w.tpB.EvmKeeper.SetParams(ctx, ep)
 		case "toggle-pair":
 			if p == nil {
 				continue
@@ -249,6 +254,10 @@ func (m *monitor) undoMuts(ctx sdk.Context, s *spec, done []string) {
 			k.SetParams(ctx, aggtypes.DefaultParams())
 		case "receive-disabled":
 			w.tpB.IBCTransferKeeper.SetParams(ctx, transfertypes.NewParams(true, true))
+		case "evm-calls-disabled":
+			ep := w.tpB.EvmKeeper.GetParams(ctx)
+			ep.EnableCall = true
+			w.tpB.EvmKeeper.SetParams(ctx, ep)
 		case "toggle-pair":
 			// the pair may have been deleted meanwhile (self-destructed token)
 			_, _ = k.ToggleRelay(ctx, p.voucher)
@@ -435,6 +444,14 @@ func (m *monitor) callbackCase(id string) {
 	m.expectation("cb", s, ackI)
 	m.judgeAcks(id, "cb", s, ackM, ackI, detail)
 
+	for _, d := range done {
+		if d == "evm-calls-disabled" {
+			// the harness reads token balances through the EVM as well: with calls switched off only the acknowledgement
+			// (and a panic of the middleware) is judged
+			m.count("cb_evm_calls_disabled_ack_only")
+			return
+		}
+	}
 	if ackI.Class != "success" || ackM.Class == "panic" || s.amt == nil || s.recvAcc == nil {
 		return
 	}
